@@ -75,10 +75,13 @@ def term_str(t):
 
 class DT:
     """A date or datetime.  kind: date | naive | utc | zoned."""
-    __slots__ = ("kind", "rank", "term", "zone", "tag")
+    __slots__ = ("kind", "rank", "term", "zone", "tag", "sub")
 
-    def __init__(self, kind, rank=None, term=None, zone=None, tag=None):
+    def __init__(self, kind, rank=None, term=None, zone=None, tag=None, sub=False):
         self.kind, self.rank, self.term, self.zone, self.tag = kind, rank, term, zone, tag
+        # sub: an instance of a proper subclass of date/datetime (type(x) is not the stdlib
+        # class, isinstance still holds); arithmetic results drop the flag
+        self.sub = sub
 
     @property
     def is_datetime(self):
@@ -89,7 +92,7 @@ class DT:
         return self.kind in ("utc", "zoned")
 
     def with_(self, **kw):
-        d = DT(self.kind, self.rank, self.term, self.zone, self.tag)
+        d = DT(self.kind, self.rank, self.term, self.zone, self.tag, self.sub)
         for k, v in kw.items():
             setattr(d, k, v)
         return d
@@ -674,7 +677,7 @@ class Interp:
         if isinstance(x, Obj) and x.cls is not None:
             return ClassVal(x.cls)
         if isinstance(x, DT):
-            return TypeTok("datetime" if x.is_datetime else "date")
+            return TypeTok(("datetime" if x.is_datetime else "date") + ("#subclass" if x.sub else ""))
         if isinstance(x, TD):
             return TypeTok("timedelta")
         if isinstance(x, str):
